@@ -29,7 +29,7 @@ import z3
 
 from pyvc import loader
 from pyvc.interp import BreakSig, ContinueSig, PathEnd, _ENGINE
-from pyvc.pack import Bounded, Case
+from pyvc.pack import Bounded, Case, Ground
 from pyvc.sym import SymBool, SymInt, iexpr
 
 loader.import_repo()
@@ -687,6 +687,56 @@ def _bounded_roundtrip(tier, seed):
         if cfg.value_with_source("loop") != _ref_lookup(layers, "loop"):
             fail(str(layers), "value_with_source disagrees with the precedence rule")
     return {"tool": "native grammar enumeration", "bound": "structured-option grammars up to the listed sizes; stacks of up to 5 layers", "cases": cases, "failures": failures}
+
+
+def ground_solver_stacks():
+    """cfg.resolved_solver_command on real layer stacks (every stack of up to 3 layers over 4 sources, each layer setting
+    --solver, --solver-command, both or neither) against the precedence rule stated on value_with_source"""
+    import itertools
+    import shlex
+
+    from halmos.config import default_config
+    from halmos.solvers import get_solver_command
+
+    srcs = [ConfigSource.config_file, ConfigSource.contract_annotation, ConfigSource.function_annotation, ConfigSource.command_line]
+    settings = [{}, {"solver": "z3"}, {"solver_command": "mysolver --flag"}, {"solver": "z3", "solver_command": "other -x"}]
+    bad, n = [], 0
+    for k in range(0, 4):
+        for layers in itertools.product(itertools.product(srcs, range(len(settings))), repeat=k):
+            cfg = default_config()
+            for src, si in layers:
+                cfg = cfg.with_overrides(src, **settings[si])
+            n += 1
+            solver, s_src = cfg.value_with_source("solver")
+            cmd, c_src = cfg.value_with_source("solver_command")
+            want = shlex.split(cmd) if (cmd and c_src and c_src >= s_src) else get_solver_command(solver)
+            try:
+                got = cfg.resolved_solver_command
+            except Exception as e:  # noqa
+                got = f"{type(e).__name__}: {e}"
+            if got != want and len(bad) < 3:
+                bad.append(([(s_.name, settings[i]) for s_, i in layers], got, want))
+    return [(f"resolved_solver_command follows the precedence of value_with_source on all {n} layer stacks (the top-most object answers, whatever the sources of the layers below)", not bad, f"first disagreement: {str(bad[:1])[:400]}")]
+
+
+def ground_parser_defaults():
+    """an option that is not written on the command line / in an annotation is `not given` (None) in the parsed layer,
+    for every option: layering relies on it"""
+    from halmos.config import arg_parser, default_config
+
+    names = [f.name for f in __import__("dataclasses").fields(type(default_config())) if not f.name.startswith("_")]
+    out = []
+    for argv in ([], ["--loop", "3"], ["-v"], ["--solver", "z3"]):
+        ns = vars(arg_parser().parse_args(argv))
+        given = {"--loop": "loop", "-v": "verbose", "--solver": "solver"}
+        mentioned = {given[a] for a in argv if a in given}
+        wrong = sorted(k for k, v in ns.items() if k not in mentioned and k != "root" and v is not None)
+        out.append((f"parse_args({argv}) leaves every option that was not written as None", not wrong, f"options with a value although not given: {wrong[:5]}"))
+    return out
+
+
+def grounds():
+    return [Ground(f"{PROP}/config.Config.resolved_solver_command#stacks", ground_solver_stacks, sources=("halmos.config:Config.resolved_solver_command", "halmos.config:Config.__getattribute__")), Ground(f"{PROP}/config.arg_parser#not-given-is-None", ground_parser_defaults, sources=("halmos.config:_create_arg_parser",))]
 
 
 def bounded():
